@@ -165,6 +165,11 @@ func BuildRoot(w *World, root string, lib *OpLib) {
 		// LP price) and a small one with a loose stop-loss (15 % below): a moderate price fall closes the
 		// large one, which changes the pool a lot inside the very message that also names the small one
 		prefix = []string{"perp_open_long_t1", "perp_open_short_t2", "llp_open_t1_x3", "swap_in_p1_usdc_atom_L", "swap_in_p2_elys_usdc_L", "gap_1d", "mc_claim_lp1", "commit_eden_lp1", "vest_eden_lp1", "stake_elys_lp1", "bond_lp1_XL", "llp_open_t2_x5_big_sl3", "llp_open_t3_x3_sl15", "gap_61m"}
+	case "R8":
+		// R1 a day later with Eden Boost in play: lp1 (staker, Eden committer) has withdrawn its staking
+		// rewards, COMMITTED the EdenB and earned more (claimed, uncommitted) — unstaking / uncommitting
+		// now burns EdenB from the claimed and from the committed balance
+		prefix = []string{"perp_open_long_t1", "perp_open_short_t2", "llp_open_t1_x3", "swap_in_p1_usdc_atom_L", "swap_in_p2_elys_usdc_L", "gap_1d", "mc_claim_lp1", "commit_eden_lp1", "vest_eden_lp1", "stake_elys_lp1", "gap_1d", "estaking_withdraw_lp1", "commit_edenb_lp1", "gap_1d", "estaking_withdraw_lp1"}
 	case "R4":
 		// R1 with a large loan outstanding for 30 days under the default every-block sweep: the
 		// interest is booked, so the vault's redemption rate sits visibly above 1 (≈ 1.005)
